@@ -8,6 +8,7 @@ the padded in-place real layout, and the copy loops are all covered), that forwa
 input, and every access of the FFTW model and of the copy loops stays inside the allocated arrays.  A wrongly shaped
 input must raise ValueError.  Replay: cider_fft.c compiled against /verif/stubs/fftw_ref.c vs numpy.fft."""
 import itertools
+import os
 from fractions import Fraction
 
 import numpy as np
@@ -236,8 +237,27 @@ def tasks(tier):
     for dims, nt, inplace, bf in [((3,), 2, True, False), ((2, 2), 1, False, True)]:
         out.append(Task("roundtrip/%s/nt%d/%s/%s" % ("x".join(map(str, dims)), nt, "inplace" if inplace else "outofplace", "batchfirst" if bf else "batchlast"), h_roundtrip,
                         dict(dims=dims, nt=nt, inplace=inplace, bf=bf), mods="fft"))
+    # size thresholds: a copy routine may treat large buffers differently (blocked copies, thresholds for threading).  The batch
+    # count is chosen just above the largest integer literal in cider_fft.c (static scan, >= 64); length-1 transforms keep the DFT
+    # itself trivial, so the task is about the copies in and out of the plan buffers
+    big = _largest_size_literal()
+    for nt in sorted({big + 1, 2 * big + 3} if big else ()):
+        if nt <= 20000:
+            for fwd, bf in ((True, True), (False, False)):
+                out.append(Task("fft/above_size_literal_%d/1/nt%d/%s/c2c/outofplace/%s" % (big, nt, "fwd" if fwd else "bwd", "batchfirst" if bf else "batchlast"), h_fft,
+                                dict(dims=(1,), nt=nt, fwd=fwd, r2c=False, inplace=False, bf=bf), mods="fft", timeout_ms=120000))
     out.append(Task("int_cast", z3_int_truncation, {}, engine="custom"))
     return out
+
+
+def _largest_size_literal():
+    import re
+    src = open(os.path.join(common.REPO if hasattr(common, "REPO") else "/repo", "ciderpress/lib/fft_wrapper/cider_fft.c")).read()
+    src = re.sub(r"/\*.*?\*/", " ", src, flags=re.S)
+    src = re.sub(r"//[^\n]*", " ", src)
+    vals = [int(m) for m in re.findall(r"(?<![\w.])(\d{2,9})(?![\w.])", src)]
+    vals = [v for v in vals if v >= 64]
+    return max(vals) if vals else 0
 
 
 def prepare(tier):
